@@ -596,7 +596,10 @@ func (w *world) rebuild(pos int, op Op, value []byte) (term string, bad string) 
 		return "Tup [Junk 6; Junk 6]", "the keyset is not a Tink keyset"
 	}
 
-	var keys []string
+	var (
+		keys  []string
+		atoms []int
+	)
 
 	for _, k := range ks.Key {
 		m := string(k.KeyData.Value)
@@ -613,6 +616,7 @@ func (w *world) rebuild(pos int, op Op, value []byte) (term string, bad string) 
 		}
 
 		keys = append(keys, fmt.Sprintf("Bytes %d", a))
+		atoms = append(atoms, a)
 	}
 
 	if len(payload) > 12 && len(encDEK) > 12 {
@@ -620,13 +624,100 @@ func (w *world) rebuild(pos int, op Op, value []byte) (term string, bad string) 
 		w.event(&w.writeEvents, wrapKey, fmt.Sprintf("DEK of op %d under the master key", pos), encDEK[:12])
 	}
 
-	term = fmt.Sprintf("Tup [AEnc (Bytes %d) (Bytes 0) (Tup %s); AEnc (%s) (%s) (Bytes %d)", dAtom, hx.CoqList(keys), wrapKey, aadT, dAtom)
+	// keysetInfo, the cleartext member: parsed strictly (no member the schema does not have) and compared, field by
+	// field, with the keys of the keyset just decrypted: descriptor i must be exactly the public description of key i
+	// (type URL, status, Tink key id, output prefix type), the primary key id the keyset's
+	infoT, infoBad := rebuildInfo(doc["keysetInfo"], ks, atoms)
+	if infoBad != "" && bad == "" {
+		bad = infoBad
+	}
+
+	term = fmt.Sprintf("Tup [AEnc (Bytes %d) (Bytes 0) (Tup %s); AEnc (%s) (%s) (Bytes %d); %s", dAtom, hx.CoqList(keys), wrapKey, aadT, dAtom, infoT)
 	if len(extra) > 0 {
 		term += "; Junk 7"
 		bad = "stored value has members besides encryptedKeyset/keysetInfo: " + strings.Join(extra, ",")
 	}
 
 	return term + "]", bad
+}
+
+type ksInfoJSON struct {
+	PrimaryKeyID *uint32 `json:"primaryKeyId"`
+	KeyInfo      []struct {
+		TypeURL          *string `json:"typeUrl"`
+		Status           *string `json:"status"`
+		KeyID            *uint32 `json:"keyId"`
+		OutputPrefixType *string `json:"outputPrefixType"`
+	} `json:"keyInfo"`
+}
+
+// rebuildInfo returns the term of a keysetInfo member: Tup [Junk (atom of the primary key); Tup [Junk (atom of key i) ...]]
+// when it is exactly the public description of the decrypted keyset; anything else shows up as another term.
+func rebuildInfo(raw json.RawMessage, ks *tinkpb.Keyset, atoms []int) (term, bad string) {
+	if len(raw) == 0 {
+		return "Junk 9", "keysetInfo is missing from the stored value"
+	}
+
+	var in ksInfoJSON
+
+	dec := json.NewDecoder(bytes.NewReader(raw))
+	dec.DisallowUnknownFields()
+
+	if err := dec.Decode(&in); err != nil {
+		return "Junk 9", "keysetInfo does not parse under its schema (unknown or ill-typed member): " + err.Error()
+	}
+
+	if dec.More() {
+		return "Junk 9", "keysetInfo is followed by further data"
+	}
+
+	prim := "Junk 999998"
+
+	if in.PrimaryKeyID == nil || *in.PrimaryKeyID != ks.PrimaryKeyId {
+		bad = "keysetInfo names another primary key id than the keyset"
+	}
+
+	for i, k := range ks.Key {
+		if k.KeyId == ks.PrimaryKeyId && bad == "" {
+			prim = fmt.Sprintf("Junk %d", atoms[i])
+		}
+	}
+
+	var ds []string
+
+	for i, d := range in.KeyInfo {
+		if i >= len(ks.Key) {
+			ds = append(ds, "Junk 999997")
+			bad = "keysetInfo describes more keys than the keyset has"
+
+			continue
+		}
+
+		k := ks.Key[i]
+
+		switch {
+		case d.TypeURL == nil || *d.TypeURL != k.KeyData.TypeUrl:
+			ds = append(ds, "Junk 999996")
+			bad = fmt.Sprintf("keysetInfo type URL of key %d is not the key's", i)
+		case d.Status == nil || *d.Status != k.Status.String():
+			ds = append(ds, "Junk 999995")
+			bad = fmt.Sprintf("keysetInfo status of key %d is not the key's", i)
+		case d.KeyID == nil || *d.KeyID != k.KeyId:
+			ds = append(ds, "Junk 999994")
+			bad = fmt.Sprintf("keysetInfo key id of key %d is not the key's", i)
+		case d.OutputPrefixType == nil || *d.OutputPrefixType != k.OutputPrefixType.String():
+			ds = append(ds, "Junk 999993")
+			bad = fmt.Sprintf("keysetInfo output prefix type of key %d is not the key's", i)
+		default:
+			ds = append(ds, fmt.Sprintf("Junk %d", atoms[i]))
+		}
+	}
+
+	if len(in.KeyInfo) < len(ks.Key) && bad == "" {
+		bad = "keysetInfo describes fewer keys than the keyset has"
+	}
+
+	return "Tup [" + prim + "; Tup " + hx.CoqList(ds) + "]", bad
 }
 
 func importAtom(pos int) int { return 4*(5000+pos) + 5 }
@@ -969,6 +1060,22 @@ func (w *world) apply(pos int, op Op, r *hx.Rng) Obs {
 		}
 
 		obs.Worked = err == nil
+	case "reopen":
+		// the process restarts: a NEW secret lock instance (the unprotected key handed over again / the protected master
+		// key unlocked again with the passphrase) and a new key manager, over the same store object or a fresh wrapper
+		var inner secretlock.Service
+
+		if inner, err = newLock(w.cfg, w.masterKey, w.protected, w.passphrase, w.salt); err == nil {
+			w.lock.inner = inner
+
+			if op.UID {
+				w.store, err = compkms.NewAriesProviderWrapper(w.rec)
+			}
+
+			if err == nil {
+				w.kms = w.openOn(w.lock, w.store)
+			}
+		}
 	case "rotate":
 		if op.Ref < len(w.issued) {
 			kt = w.issued[op.Ref].kt
@@ -1237,6 +1344,8 @@ func coqOp(op Op, pos int, o Obs) string {
 		return fmt.Sprintf("Rotate %d%%nat", op.Ref)
 	case "get":
 		return fmt.Sprintf("Get %d%%nat", op.Ref)
+	case "reopen":
+		return "Reopen"
 	default:
 		return fmt.Sprintf("Export %d%%nat", op.Ref)
 	}
@@ -1279,7 +1388,7 @@ func runHistory(kind, cfg string, ops []Op, r *hx.Rng, tr *hx.Trace) {
 			fail("stored-form:"+strings.Fields(o.Bad)[0]+"-"+strings.Fields(o.Bad)[1], fmt.Sprintf("op %d (%+v): %s", i, op, o.Bad))
 		}
 
-		if op.Kind == "rotate" || op.Kind == "import" || op.Kind == "importbad" || op.Kind == "box" {
+		if op.Kind == "rotate" || op.Kind == "import" || op.Kind == "importbad" || op.Kind == "box" || op.Kind == "reopen" {
 			nontrivl = true
 		}
 	}
@@ -1624,8 +1733,10 @@ func randomHistory(r *hx.Rng, n int) []Op {
 			ops = append(ops, Op{Kind: "box", Ref: r.Intn(is + 1)})
 		case x < 75:
 			ops = append(ops, Op{Kind: "rotate", Ref: r.Intn(is + 1)})
-		case x < 88:
+		case x < 84:
 			ops = append(ops, Op{Kind: "get", Ref: r.Intn(is + 1)})
+		case x < 91:
+			ops = append(ops, Op{Kind: "reopen", UID: r.Bool()})
 		default:
 			ops = append(ops, Op{Kind: "export", Ref: r.Intn(is + 1)})
 		}
@@ -1697,8 +1808,8 @@ func main() {
 	// every key type under every lock configuration: create, export, rotate twice, read; import where possible
 	for _, cfg := range cfgs {
 		for _, kt := range ktypes {
-			ops := []Op{{Kind: "create", KT: kt.name}, {Kind: "createx", KT: kt.name}, {Kind: "rotate", Ref: 0},
-				{Kind: "export", Ref: 1}, {Kind: "rotate", Ref: 1}, {Kind: "get", Ref: 2}, {Kind: "get", Ref: 0}}
+			ops := []Op{{Kind: "create", KT: kt.name}, {Kind: "createx", KT: kt.name}, {Kind: "reopen"}, {Kind: "rotate", Ref: 0},
+				{Kind: "export", Ref: 1}, {Kind: "reopen", UID: true}, {Kind: "rotate", Ref: 1}, {Kind: "get", Ref: 2}, {Kind: "get", Ref: 0}}
 			if kt.imp != "" {
 				ops = append(ops, Op{Kind: "import", KT: kt.name}, Op{Kind: "import", KT: kt.name, UID: true},
 					Op{Kind: "rotate", Ref: issuedBy(ops)})
@@ -1754,7 +1865,7 @@ func main() {
 		}
 	}
 
-	alpha := []Op{{Kind: "box", Ref: 0}, {Kind: "importbad", KT: "ECDSAP256DER", Bad: "curve"}, {Kind: "create", KT: "AES256GCM"}, {Kind: "create", KT: "ED25519"}, {Kind: "createx", KT: "HMACSHA256Tag256"},
+	alpha := []Op{{Kind: "reopen"}, {Kind: "box", Ref: 0}, {Kind: "importbad", KT: "ECDSAP256DER", Bad: "curve"}, {Kind: "create", KT: "AES256GCM"}, {Kind: "create", KT: "ED25519"}, {Kind: "createx", KT: "HMACSHA256Tag256"},
 		{Kind: "createx", KT: "NISTP256ECDHKW"}, {Kind: "import", KT: "ED25519"}, {Kind: "import", KT: "ECDSAP256DER", UID: true},
 		{Kind: "rotate", Ref: 0}, {Kind: "rotate", Ref: 1}, {Kind: "get", Ref: 0}, {Kind: "export", Ref: 0}, {Kind: "export", Ref: 1}}
 
